@@ -99,6 +99,49 @@ func (c *Ctx) touch(fns ...string) {
 
 func (c *Ctx) role(role, sym string) { c.Resolved[role] = sym }
 
+// borrow runs the rules of another property and keeps, under this property's id, the obligations
+// that keep selects: a structural condition that is necessary for two properties is decided once
+// and reported under each of them. The selection is by rule name and resolved role, never by line.
+func (c *Ctx) borrow(from string, run func(*Ctx), keep func(sub *Ctx, o *Obligation) bool) {
+	sub := newCtx(c.P, c.Prop, c.Tier)
+	func() {
+		defer func() {
+			if r := recover(); r != nil {
+				sub.undecided("meta", "internal-error:"+from, "-", fmt.Sprint("panic while running the shared rules of ", from, ": ", r))
+				for _, o := range sub.Obs {
+					if o.Rule == "meta" {
+						c.Obs = append(c.Obs, o)
+					}
+				}
+			}
+		}()
+		run(sub)
+	}()
+	n := 0
+	for _, o := range sub.Obs {
+		if keep(sub, o) {
+			o.Reason = o.Reason + " [rule shared with " + from + "]"
+			c.Obs = append(c.Obs, o)
+			n++
+		}
+	}
+	for f := range sub.Analysed {
+		c.Analysed[f] = true
+	}
+	c.floor("shared:"+from, "obligations shared with "+from, n, 1)
+}
+
+func ruleIs(rules ...string) func(*Ctx, *Obligation) bool {
+	return func(_ *Ctx, o *Obligation) bool {
+		for _, r := range rules {
+			if o.Rule == r {
+				return true
+			}
+		}
+		return false
+	}
+}
+
 // ---------------------------------------------------------------------------------------
 // known findings
 
